@@ -144,3 +144,51 @@ def item_put_fidelity(ctx, n):
             if st == 201 and after_objs.get(name) != [(kind, uid, "s%d" % i)]:
                 ctx.violation("PUT answered 201 but the item does not hold the uploaded object", dict(path=coll + name, stored=repr(after_objs.get(name))))
                 return
+
+
+def move_matrix(ctx):
+    """Every combination of source/destination collection type x destination state x Overwrite for MOVE:
+    afterwards every stored object must be valid for its collection's type and UIDs stay unique; an error answer
+    changes nothing."""
+    import itertools
+    kinds = {"cal": ("VEVENT", ".ics"), "adr": ("VCARD", ".vcf")}
+    for src_t, dst_t, dst_state, ow, same_coll in itertools.product(kinds, kinds, ("absent", "same-uid", "other-uid"), ("T", "F"), (False, True)):
+        if same_coll and src_t != dst_t:
+            continue
+        with impl.Server(conf={"auth": {"type": "none"}, "rights": {"type": "authenticated"}}) as srv:
+            srv.mkcol("/u/")
+            mk = {"cal": srv.mkcalendar, "adr": srv.mkaddressbook}
+            mk[src_t]("/u/s/")
+            dst = "/u/s/" if same_coll else "/u/d/"
+            if not same_coll:
+                mk[dst_t]("/u/d/")
+
+            def body(t, uid, s):
+                k, _ = kinds[t]
+                b = comp_text(k, uid, s)
+                return b if t == "adr" else "BEGIN:VCALENDAR\r\nPRODID:-//v//EN\r\nVERSION:2.0\r\n" + b + "END:VCALENDAR\r\n"
+            srv.put("/u/s/a" + kinds[src_t][1], body(src_t, "shared", "src"), login="u:")
+            dst_name = dst + "b" + kinds[dst_t][1]
+            if dst_state != "absent":
+                st0 = srv.put(dst_name, body(dst_t, "shared" if dst_state == "same-uid" else "other", "dst"), login="u:")[0]
+                if st0 != 201:
+                    continue        # (same collection, same uid) cannot be set up: uid conflict
+            before = impl.tree_dump(srv.folder, skip_cache=True)
+            st, _, _ = srv.request("MOVE", "/u/s/a" + kinds[src_t][1], login="u:", HTTP_HOST="127.0.0.1",
+                                   HTTP_DESTINATION="http://127.0.0.1" + dst_name, HTTP_OVERWRITE=ow)
+            ctx.case(("move", src_t, dst_t, dst_state, ow, same_coll), nontrivial=True)
+            ctx.count("move-matrix:%s" % st)
+            after = impl.tree_dump(srv.folder, skip_cache=True)
+            if st >= 400 and after != before:
+                ctx.violation("MOVE answered %s but the store changed" % st, dict(case=[src_t, dst_t, dst_state, ow, same_coll]))
+                return
+            for coll, t in (("/u/s/", src_t), (dst, dst_t)):
+                objs = disk_objects(srv.folder, coll)
+                uids = [c[1] for cs in objs.values() for c in cs]
+                want_kind = kinds[t][0]
+                bad = [(n, c) for n, cs in objs.items() for c in cs if (c[0] == "VCARD") != (want_kind == "VCARD")]
+                if bad or len(set(uids)) != len(uids):
+                    ctx.violation("after MOVE (%s) collection %s (%s) holds %s" % (
+                        st, coll, t, "an object of the wrong type %r" % (bad,) if bad else "two objects with one UID"),
+                        dict(case=[src_t, dst_t, dst_state, ow, same_coll]))
+                    return
